@@ -2,7 +2,7 @@
      reg <n> {<pattern> <kind I|U|S|B|N> <conts csv|-> <deps csv|-> <frr 0|1>} [guard <ifname> <mru>] ops {op}
    ops:  c | x <sid> | d <sid> | s <sid> <path> <value> <vfail 0|1> | t <minutes> | b <version> | m <sid> <k>:<flags trsv|->
    output: "<result> <trace> <state delta>" per op joined by " ; "  (same text as the Go harness prints).
-   argv[3] = variant: repaired (default) | defective *)
+   argv[3] = variant: repaired (default) | set_defect | persist_defect | defective *)
 let tbl : (string, int) Hashtbl.t = Hashtbl.create 64
 let names : (int, string) Hashtbl.t = Hashtbl.create 64
 let () = Hashtbl.replace tbl "<*>" 0; Hashtbl.replace names 0 "<*>"
@@ -134,7 +134,10 @@ let run_case (var : variant) (line : string) : string =
   end
 let () =
   let lines = read_lines Sys.argv.(1) in
-  let var = if Array.length Sys.argv > 3 && Sys.argv.(3) = "defective" then Defective else Repaired in
+  let var = if Array.length Sys.argv > 3 then
+      (match Sys.argv.(3) with
+       | "defective" -> defective | "persist_defect" -> persistDefect | "set_defect" -> setDefect | _ -> repaired)
+    else repaired in
   List.iter (fun line ->
       Hashtbl.reset tbl; Hashtbl.reset names; Hashtbl.replace tbl "<*>" 0; Hashtbl.replace names 0 "<*>";
       print_endline (try run_case var line with e -> "modelerror " ^ Printexc.to_string e)) lines
